@@ -104,6 +104,7 @@ func inPkgs(suffixes ...string) func(*ssa.Function) bool {
 func checkC05(c *an.Ctx) {
 	c.Rule("C05.1", "the cycle error is not lost (E7): from the function that returns ErrCycleDetected every call site up to Loader.Load propagates or wraps the error; the edge recorder runs the detector on every insertion, from an endpoint of the new edge, with a mark set allocated for that insertion; buildPipeline adds every declared stage")
 	c.Rule("C05.2", "exposed edges are the declared edges (= C01.5)")
+	c.Rule("C05.4", "the edges checked are the edges declared (E5 provenance): every value internal/config stores into Stage.DependsOn is the definition's depends_on list as decoded (a defensive copy is looked through) — a list that was filtered, de-duplicated or expanded on the way can lose the very entry that closes a cycle (a stage naming itself, say)")
 	c.Rule("C05.3", "on-path marking (E3/E4): a recursive detector that reports a cycle on meeting a marked node must un-mark the node on every non-error exit (or consult a distinct finished mark); its verdict may depend only on the adjacency map and the per-call mark set")
 	c.NotDecided = append(c.NotDecided, "correctness of the detector on all graphs and declaration orders (the 'iff' is a property of an algorithm's result, not a shape fact)")
 	p := c.P
@@ -190,6 +191,7 @@ func checkC05(c *an.Ctx) {
 
 	// C05.3
 	onPathMarking(c, det, "C05.3")
+	declaredDependencies(c, "C05.4")
 }
 
 func onPathMarking(c *an.Ctx, det *ssa.Function, rule string) {
@@ -412,5 +414,47 @@ func onPathMarking(c *an.Ctx, det *ssa.Function, rule string) {
 	})
 	if !bad {
 		c.OK(rule, key+":inputs", det.Pos(), "the verdict depends only on adjacency %v and the per-call mark set", adj)
+	}
+}
+
+// declaredDependencies checks C05.4.
+func declaredDependencies(c *an.Ctx, rule string) {
+	p := c.P
+	n := 0
+	for _, fn := range p.Funcs {
+		if !inPkgs("internal/config")(fn) {
+			continue
+		}
+		an.EachInstr(fn, func(in ssa.Instruction) {
+			st, ok := in.(*ssa.Store)
+			if !ok {
+				return
+			}
+			fa, ok := st.Addr.(*ssa.FieldAddr)
+			if !ok || an.TypeField(fa) != "Stage.DependsOn" {
+				return
+			}
+			n++
+			prov := an.FieldProv(an.ContentOf(st.Val))
+			good := prov == "stageDefinition.DependsOn"
+			if !good {
+				// through helpers of the package that hand the list on unchanged
+				good = true
+				srcs := p.DeepSources(st.Val, 3, true)
+				if len(srcs) == 0 {
+					good = false
+				}
+				for _, src := range srcs {
+					if an.FieldProv(an.ContentOf(src)) != "stageDefinition.DependsOn" {
+						good = false
+						prov = an.FieldProv(src)
+					}
+				}
+			}
+			c.Check(good, rule, an.Short(fn)+":Stage.DependsOn", st.Pos(), "the stage's dependencies are the definition's depends_on as decoded", "the stage's dependencies are not the definition's depends_on list as decoded but "+prov+": an entry dropped or rewritten on the way is an edge the cycle check never sees")
+		})
+	}
+	if n == 0 {
+		c.Und(rule, "config:Stage.DependsOn", token.NoPos, "internal/config never sets Stage.DependsOn")
 	}
 }
